@@ -69,6 +69,7 @@ type sinfo = {
   mutable wake_ok : bool;
   mutable expected : int;
   mutable delivered : int;
+  mutable count_fuzzy : bool;
   mutable live : bool;
 }
 
@@ -154,7 +155,7 @@ let run_case (case : string) : string =
        | Pending ->
          let replica_ok = (List.map n2i i.replica = !shadow) in
          let step_ok = i.got_reset || (i.ptr = List.length i.states) in
-         let count_ok = i.got_reset || (i.expected = i.delivered) in
+         let count_ok = i.got_reset || i.count_fuzzy || (i.expected = i.delivered) in
          i.last_pending <- true; i.woken <- false; i.sent_since_pending <- 0;
          (Printf.sprintf "P ok:replica=%s ok:app=%s ok:stepwise=%s ok:count=%s ok:lagreset=%s ok:wake=%s"
             (b2s replica_ok) (b2s i.app_ok) (b2s step_ok) (b2s count_ok) (b2s i.lagreset_ok) (b2s i.wake_ok), 'P')) in
@@ -229,7 +230,7 @@ let run_case (case : string) : string =
            Hashtbl.replace infos k
              { replica = snap; app_ok = true; got_reset = false; states = []; ptr = 0;
                sent_since_pending = 0; lagreset_ok = true; last_pending = false; woken = false;
-               wake_ok = true; expected = 0; delivered = 0; live = true };
+               wake_ok = true; expected = 0; delivered = 0; count_fuzzy = false; live = true };
            emit (Printf.sprintf "#%d=%s%s" k (show_vec snap) (if List.map n2i snap = !shadow then "" else " ok:plain=0"))
          | "poll" ->
            let k = List.hd (parse_args arg) in
@@ -259,8 +260,17 @@ let run_case (case : string) : string =
          | "tc" ->
            let (o', w) = txn_commit !o in
            o := o'; note_woken w;
+           let contents_unchanged = (!shadow = !tshadow) in
            shadow := !tshadow;
-           if !batch_count > 0 then published !shadow !batch_count;
+           if !batch_count > 0 then begin
+             if contents_unchanged then
+               (* may or may not publish: the property does not say; stop checking exact counts *)
+               Hashtbl.iter (fun _ i -> if i.live then i.got_reset <- true) infos
+             else begin
+               Hashtbl.iter (fun _ i -> if i.live then i.count_fuzzy <- true) infos;
+               published !shadow !batch_count
+             end
+           end;
            emit ("." ^ (if List.map n2i !o.values = !shadow then "" else " ok:plain=0") ^ show_woken w)
          | "td" ->
            o := txn_drop !o;
